@@ -176,6 +176,20 @@ let check_tokens (cfg : econfig) (ops : eop list) (tr : tok list) : unit =
        let pre_failed = List.exists (fun t -> match t with TCall (KTW, _, _, _) -> false | _ -> (match tok_res t with Some r -> failed r | None -> false)) pre in
        let paused_store = List.exists (function TStore (_, r, ROk) -> r.r_state = RSPaused | _ -> false) pre in
        let user_err = List.exists (function TUser (_, _, _, _, UErr _) -> true | _ -> false) pre in
+       (* C07 / C11: once a wait of this process was cancelled (role lost during the lag wait or the back-off), the
+          process does nothing more with the event: only the receiver is closed *)
+       (let rec after_cancel = function
+          | [] -> []
+          | TCall (KTW, _, RCancel, _) :: t -> t
+          | _ :: t -> after_cancel t in
+        let rest = after_cancel seg in
+        if List.exists (function TCall (KTW, _, RCancel, _) -> true | _ -> false) seg then
+          List.iter (function
+            | TCall ((KCL | KTW | KAW), _, _, _) -> ()
+            | t ->
+              if on "C07" then bad "C07" "role lost while waiting for the consume lag, but the event was still handled";
+              if on "C11" then bad "C11" "process kept working after its wait was cancelled by the loss of its role";
+              ignore t) rest);
        if on "C07" then begin
          if has_ack && pre_failed then bad "C07" "event acknowledged although a call failed while handling it";
          if has_ack && user_err && not paused_store then bad "C07" "event acknowledged although its handler failed";
@@ -307,8 +321,63 @@ let check_tokens (cfg : econfig) (ops : eop list) (tr : tok list) : unit =
         | _ -> ())
      | _ -> ())
   ) segs;
-  (* ---------------- end-of-trace clauses (only meaningful for scenarios that end quiescent) ---------------- *)
-  ()
+  (* ---------------- C01: prefix of the failure-free history; equal to it at quiescence ---------------- *)
+  if on "C01" then begin
+    (* the failure-free execution: the same operations without faults, crashes, lease revocations, rewinds, duplicates *)
+    let ideal_ops = List.filter_map (fun o -> match o with
+      | OTrigger (f, st, sd, _) -> Some (OTrigger (f, st, sd, []))
+      | OCallback (f, st, _) -> Some (OCallback (f, st, []))
+      | OCtl (r, c, ui, _) -> Some (OCtl (r, c, ui, []))
+      | OStep (i, u, _) -> Some (OStep (i, u, []))
+      | OAdvance d -> Some (OAdvance d)
+      | OCrash _ | OLose _ | ORewind _ | ODup _ -> None) ops in
+    let (wi, ti) = run_ops cfg ideal_ops in
+    (* runs are identified by (foreign ID, k-th successful trigger of that foreign ID) in both executions *)
+    let runs_of (ops : eop list) (segs : tok list list) =
+      let acc = ref [] in
+      List.iteri (fun n seg -> match (try List.nth ops n with _ -> OAdvance Z0) with
+        | OTrigger (fid, _, _, _) ->
+          List.iter (function TStore (None, r, a) when eff a ->
+              let k = List.length (List.filter (fun (f, _, _) -> f = fid) !acc) in acc := (fid, k, r.r_run) :: !acc
+            | _ -> ()) seg
+        | _ -> ()) segs;
+      !acc in
+    let my_runs = runs_of ops segs and ideal_runs = runs_of ideal_ops (segments ti) in
+    let dedup l = let rec go prev = function [] -> [] | x :: t -> if Some x = prev then go prev t else x :: go (Some x) t in go None l in
+    let seq_of (hist : record list) run = dedup (List.filter_map (fun r -> if r.r_run = run then Some (r.r_status, r.r_obj) else None) hist) in
+    let rec is_prefix a b = match a, b with [] , _ -> true | x :: ta, y :: tb -> x = y && is_prefix ta tb | _ :: _, [] -> false in
+    (* quiescence of the observed execution: the last step of every process found nothing to do, and no timer is pending *)
+    let procs = List.sort_uniq compare (List.filter_map (function OStep (i, u, _) -> Some (zi i, u) | _ -> None) ops) in
+    let last_seg = Hashtbl.create 16 in
+    List.iteri (fun n seg -> match (try List.nth ops n with _ -> OAdvance Z0) with
+      | OStep (i, u, pl) -> Hashtbl.replace last_seg (zi i, u) (seg, pl, n)
+      | _ -> ()) segs;
+    let last_disturb = List.fold_left max (-1) (List.mapi (fun n o -> match o with OStep _ -> -1 | _ -> n) ops) in
+    let idle (seg, pl, n) =
+      pl = [] && n > last_disturb && seg <> [] &&
+      List.for_all (function
+        | TCall (KAW, _, (ROk | RBlocked), _) | TCall (KRV, _, RBlocked, _) | TCall (KNR, _, ROk, _) -> true
+        | TCall (KLO, _, ROk, []) | TCall (KTL, _, ROk, []) -> true
+        | _ -> false) seg &&
+      List.exists (function
+        | TCall (KAW, _, RBlocked, _) | TCall (KRV, _, RBlocked, _) | TCall (KLO, _, ROk, []) | TCall (KTL, _, ROk, []) -> true
+        | _ -> false) seg in
+    let quiescent =
+      procs <> [] && List.for_all (fun p -> match Hashtbl.find_opt last_seg p with Some x -> idle x | None -> false) procs
+      && not (List.exists (fun (_, _, _, _, live) -> !live) !timers) in
+    (* the failure-free execution must itself have come to rest for its final records to be the reference *)
+    let ideal_rest = wi.w_outbox = [] in
+    List.iter (fun (fid, k, run) ->
+      match List.find_opt (fun (f, k', _) -> f = fid && k' = k) ideal_runs with
+      | None -> ()
+      | Some (_, _, irun) ->
+        let mine = seq_of !writes run and ideal = seq_of wi.w_hist irun in
+        if not (is_prefix mine ideal) then
+          bad "C01" "run %d (foreign ID %d): persisted history is not a prefix of the failure-free history (a step's effect was lost, repeated or reordered)" (ni run) (ni fid);
+        if quiescent && ideal_rest && List.length mine < List.length ideal then
+          bad "C01" "run %d (foreign ID %d): the system is quiescent but the run stopped %d step(s) short of the failure-free execution (stranded)" (ni run) (ni fid) (List.length ideal - List.length mine)
+    ) my_runs
+  end
 
 let check (a : ostring list) (obs : ostring list) : ostring option =
   let rec split_case acc = function "--" :: r -> (List.rev acc, r) | x :: r -> split_case (x :: acc) r | [] -> (List.rev acc, []) in
